@@ -29,6 +29,7 @@ inductive LuaVal where
   | okT (s : Bytes)
   | errT (s : Bytes)
   | arr (xs : List LuaVal)
+  | other                  -- a function / thread / userdata: not nil, not convertible
 
 mutual
 /-- `resp_to_lua_value` -/
@@ -61,10 +62,23 @@ def luaToResp : LuaVal → Resp
   | .okT s => if validUtf8 s then .simple s else .array (some [])
   | .errT s => if validUtf8 s then .error s else .array (some [])
   | .arr xs => .array (some (luaToRespL xs))
+  | .other => .bulk none                   -- `_ => RespValue::BulkString(None)`
 def luaToRespL : List LuaVal → List Resp
   | [] => []
   | .nil :: _ => []                        -- the array ends at the first nil
   | x :: xs => luaToResp x :: luaToRespL xs
 end
+
+
+/-- decimal text of an integer (`i64::to_string`; also `f64::to_string` of an integral float below 2^53) -/
+def intText (i : Int) : Bytes := s2b (toString i)
+
+/-- `parse_multivalue_to_bytes`: the bytes a redis.call argument becomes; `none` = refused
+    ("Invalid argument type for redis command") -/
+def luaArgBytes : LuaVal → Option Bytes
+  | .str b => some b
+  | .int i => some (intText i)
+  | .num i => some (intText i)
+  | _ => none
 
 end RedisVerif.LuaConv
